@@ -36,7 +36,7 @@ class C05(Prop):
                   '(wire order is compared, not the internal order of the queue).')
     design_ref = '§5 C05'
     rule = ('random histories of enqueue (payload of 1..5 fragments, bare complete, error, cancel, request-n, keepalive on stream 0, priority frame) on 1..4 streams '
-            'and sender releases, fragment size in {none,64,80}, both framings; frames the library queues itself (ERROR[REJECTED] for a duplicate request, the request of a requester it opens - 1..5 fragments -, its REQUEST_N and its CANCEL, possibly while the request is still being sent); non-trivial = at least two frames of one stream queued while an earlier fragmented frame '
+            'and sender releases, fragment size in {none,64,80}, both framings; what a reassembly cache fed with the observed wire puts together per stream; the fragmented full-stack runs of C01 (two real endpoints) judged for the receiver-side consequence; frames the library queues itself (ERROR[REJECTED] for a duplicate request, the request of a requester it opens - 1..5 fragments -, its REQUEST_N and its CANCEL, possibly while the request is still being sent); non-trivial = at least two frames of one stream queued while an earlier fragmented frame '
             'of that stream is in flight; distinct = distinct history')
     assumptions = ['the sender task is the only consumer of the send queue']
 
@@ -76,10 +76,24 @@ class C05(Prop):
                 else:
                     acts.append(['release'])
             out.append({'F': F, 'lp': lp, 'acts': acts, 'drain': rng.random() < 0.7})
+        # the consequence at a *real* receiving endpoint (not a bare reassembly cache): the full-stack runs of C01 with fragmentation -
+        # interleaved fragmented payloads, requests, completions, errors and cancels of many streams between two real endpoints - judged
+        # here for "never merged, truncated or reordered at the receiver"
+        from harness.props import c01
+        k = 0
+        for c in c01.PROP.cases(rng, 'quick' if tier == 'quick' else 'thorough'):
+            if c.get('kind') != 'reconnect' and c.get('frag') and not c.get('lease'):
+                out.append({'kind': 'pair', 'c01': c})
+                k += 1
+                if k >= (80 if tier == 'quick' else 1500):
+                    break
         return out
 
     # ---------------------------------------------------------------------------------------
     def run_impl(self, case):
+        if case.get('kind') == 'pair':
+            from harness.props import c01
+            return c01.PROP.run_impl(case['c01'])
         return detloop.run(self._scenario, case)
 
     async def _scenario(self, loop, case):
@@ -300,9 +314,13 @@ class C05(Prop):
         return 0
 
     def model_lines(self, case, obs):
+        if case.get('kind') == 'pair':
+            return []
         return ['sq ' + ' '.join(obs['events'])]
 
     def compare(self, case, obs, answers):
+        if case.get('kind') == 'pair':
+            return None
         impl = ' '.join('%d:%d' % (s, l) for s, l in obs['wire'])
         model = answers[0].split(' | ')[0].strip()
         if impl != model:
@@ -310,6 +328,9 @@ class C05(Prop):
 
     def oracle(self, case, obs):
         fails = []
+        if case.get('kind') == 'pair':
+            from harness.props import c01
+            return [{'signature': 'at-the-receiving-endpoint:' + f['signature'], 'what': f['what']} for f in c01.PROP.oracle(case['c01'], obs)]
         expected = {}
         for s in obs['sources']:
             expected.setdefault(s['sid'], []).extend(s['tag'] * 100 + i for i in range(s['k']))
@@ -341,6 +362,8 @@ class C05(Prop):
         return fails
 
     def nontrivial(self, case, obs):
+        if case.get('kind') == 'pair':
+            return json.dumps(case, sort_keys=True)
         # two frames of one stream queued while a fragmented one of that stream is partly sent
         multi = {s['sid'] for s in obs['sources'] if s['k'] > 1}
         per = {}
@@ -351,6 +374,9 @@ class C05(Prop):
         return None
 
     def stats(self, case, obs):
+        if case.get('kind') == 'pair':
+            yield 'kind=two-real-endpoints'
+            return
         yield 'F=%s' % case['F']
         yield 'lp=%s' % case['lp']
         for k in {s['kind'] for s in obs['sources']}:
@@ -361,6 +387,8 @@ class C05(Prop):
             yield 'priority-frame'
 
     def shrink_candidates(self, case):
+        if case.get('kind') == 'pair':
+            return
         acts = case['acts']
         for i in range(len(acts)):
             yield dict(case, acts=acts[:i] + acts[i + 1:])
